@@ -71,16 +71,17 @@ type Chan struct {
 type Ledger struct {
 	Clock *Clock
 
-	mu         sync.Mutex
-	accounts   map[string]map[uint64]*big.Int // wallet address key -> asset -> balance
-	names      map[string]string              // wallet address key -> party name
-	chans      map[channel.ID]*Chan
-	subs       map[channel.ID]map[*Sub]struct{}
-	latest     map[channel.ID]channel.AdjudicatorEvent
-	calls      []Call
-	problems   []Problem
-	totals     map[uint64]*big.Int
-	heldOwners []string
+	mu             sync.Mutex
+	accounts       map[string]map[uint64]*big.Int // wallet address key -> asset -> balance
+	names          map[string]string              // wallet address key -> party name
+	chans          map[channel.ID]*Chan
+	subs           map[channel.ID]map[*Sub]struct{}
+	latest         map[channel.ID]channel.AdjudicatorEvent
+	calls          []Call
+	problems       []Problem
+	totals         map[uint64]*big.Int
+	heldOwners     []string
+	holdOnRegister string
 
 	activity atomic.Uint64
 	active   atomic.Int64
@@ -492,6 +493,22 @@ func (v *View) Register(ctx context.Context, req channel.AdjudicatorReq, subs []
 			return fail("register-late", "channel %x: refutation with version %d at time %d, after the deadline %d", it.state.ID[:4], it.state.Version, now, cc.Reg.Deadline)
 		}
 	}
+	if l.holdOnRegister != "" && strings.HasPrefix(v.Who, l.holdOnRegister) {
+		// the scenario wants the events of this registration to be reported late
+		// to the caller's own subscriptions (slow chain node)
+		owner := strings.SplitN(v.Who, "/", 2)[0]
+		l.heldOwners = append(l.heldOwners, owner)
+		for _, set := range l.subs {
+			for s := range set {
+				if strings.HasPrefix(s.owner, owner) {
+					s.mu.Lock()
+					s.held = true
+					s.mu.Unlock()
+				}
+			}
+		}
+		l.holdOnRegister = ""
+	}
 	deadline := now + req.Params.ChallengeDuration
 	for _, it := range items {
 		cc := l.chans[it.state.ID]
@@ -715,6 +732,29 @@ func (l *Ledger) HoldEvents(prefix string) {
 			}
 		}
 	}
+}
+
+// HoldEventsOnRegisterBy arranges that the events caused by the next Register
+// call of a caller whose name starts with prefix are kept back from that
+// party's own subscriptions until ReleaseEvents.
+func (l *Ledger) HoldEventsOnRegisterBy(prefix string) {
+	l.mu.Lock()
+	defer l.mu.Unlock()
+	l.holdOnRegister = prefix
+}
+
+// RegisterCallsBy counts the successful Register calls of callers whose name
+// starts with prefix.
+func (l *Ledger) RegisterCallsBy(prefix string) int {
+	l.mu.Lock()
+	defer l.mu.Unlock()
+	n := 0
+	for _, c := range l.calls {
+		if c.Kind == "register" && c.Err == "" && strings.HasPrefix(c.Who, prefix) {
+			n++
+		}
+	}
+	return n
 }
 
 // ReleaseEvents delivers everything kept back by HoldEvents.
